@@ -605,6 +605,35 @@ CHECKS["C06"]["text"] = ("Same heap model as C01. Every raising op of the repair
     "remains a recorded non-atomic finding (oracle-only). Tie: rejection shapes at every argument position and random "
     "histories executed on real objects, full observation compared inside Coq after every op.")
 
+CHECKS["C16"].update(
+    text="Theorems (all closed): parser soundness and completeness against the reference grammar, totality and reference "
+         "unambiguity; exact integer semantics of //, %, ceil, trunc, min, max and ** (Python-int semantics for negative "
+         "operands, exact powers) with partial-binding consistency (full, for every tree and pair of environments); "
+         "print->parse identity at character level for a fully parenthesised and a minimal-parenthesis printer over the whole "
+         "operator set (precedence/associativity corner cases included); fail-closed structural and per-method AST-digest "
+         "pins of the tokenizer and parser source. The model is tied to the implementation by five Coq-evaluated "
+         "correspondences: parser via a SymPy stub, string evaluation, operator trees, Python-int semantics, minimal-paren "
+         "print->parse (+ large flat expressions).",
+    note=TRUST + "SymPy's algebra, simplify and printer remain an oracle/trusted base (recorded SymPy 1.14 defects are known "
+         "findings attributed only when SymPy alone reproduces them); Sqrt only on perfect squares; the parser methods are "
+         "pinned by digest, not translated statement by statement.",
+    technique="Executable Gallina model of tokenizer/parser/evaluator; generated tables and source digests (fail-closed); "
+              "vm_compute case files; property oracle with exact Fractions and Python's ast")
+CHECKS["C03"].update(
+    text="C03_iso (IR->proto->IR is the identity on the canonical tree of every serializable model, functions included), "
+         "C03_ser_readonly, C03_ser_twice_equal, C03_ser_deser_ser proved in Coq for the Gallina model of serde; the model covers "
+         "both function value-info formats (IR>=10, and the IR<10 'domain::function/value' main-graph entries via ModelOld.v "
+         "with C03_ser_readonly_old). model = code is checked per run inside Coq on every generated case (models built by "
+         "construction and through edit histories of the public mutators) except those carrying quantization annotations "
+         "(decided by the isomorphism oracle only).")
+CHECKS["C17"].update(
+    text="C17_deser_total, C17_consistent and C17_consistent_x (every accepted proto yields an IR satisfying I1-I7, in both "
+         "function value-info formats), C17_ser_fixpoint (full: EVERY proto, IR>=10 format; only leaf-contract hypotheses) "
+         "proved in Coq; in the IR<10 format the fixpoint is refuted in the model (C17_ser_fixpoint_old_refuted), matching the "
+         "open known finding experimental-function-value-info-name-collision; correspondence by vm_compute on every "
+         "generated/mutated proto; a leaf oracle compares every dimension/payload the library reads with an independent "
+         "reading of the proto.")
+
 
 def main():
     props = [json.loads(l) for l in open(os.path.join(VERIF, "properties.jsonl"))]
